@@ -22,7 +22,7 @@ fn zero_call<A: Copy + std::fmt::Debug, M: Bytes<A>>(m: &M, entry: u64, addr: A,
 where
     M::E: std::fmt::Debug,
 {
-    for variant in 0..5u64 {
+    for variant in 0..6u64 {
         zero_call_v(m, entry, addr, valid, variant, what)?;
         if entry < 6 {
             break;
@@ -32,7 +32,7 @@ where
 }
 
 /// `variant` selects the stream object for the stream forms: sources {non-empty &[u8], empty
-/// &[u8], Cursor at its end, empty File, Cursor beyond its end}; sinks {Vec, full (zero-capacity)
+/// &[u8], Cursor at its end, empty File, Cursor beyond its end, connected socket with nothing pending}; sinks {Vec, full (zero-capacity)
 /// &mut [u8], &mut [u8] with room, Cursor<&mut [u8]> at its end / beyond its end}.
 fn zero_call_v<A: Copy + std::fmt::Debug, M: Bytes<A>>(m: &M, entry: u64, addr: A, valid: bool, variant: u64, what: &str) -> Result<(), String>
 where
@@ -70,6 +70,13 @@ where
                     }
                     r
                 }
+                5 => {
+                    // a connected socket with nothing pending (non-blocking, so that a transfer
+                    // that waits for data shows up as an error instead of hanging)
+                    let (mut a, _b) = std::os::unix::net::UnixStream::pair().map_err(|e| format!("HARNESS-PANIC: socketpair: {}", e))?;
+                    a.set_nonblocking(true).map_err(|e| format!("HARNESS-PANIC: {}", e))?;
+                    if exact { m.read_exact_volatile_from(addr, &mut a, 0).map(|_| 0) } else { m.read_volatile_from(addr, &mut a, 0) }
+                }
                 _ => {
                     let mut f = memfd(0);
                     if exact { m.read_exact_volatile_from(addr, &mut f, 0).map(|_| 0) } else { m.read_volatile_from(addr, &mut f, 0) }
@@ -103,6 +110,11 @@ where
                         return Err(format!("{}: a zero-count transfer wrote into the sink", what));
                     }
                     r
+                }
+                5 => {
+                    let (mut a, _b) = std::os::unix::net::UnixStream::pair().map_err(|e| format!("HARNESS-PANIC: socketpair: {}", e))?;
+                    a.set_nonblocking(true).map_err(|e| format!("HARNESS-PANIC: {}", e))?;
+                    if all { m.write_all_volatile_to(addr, &mut a, 0).map(|_| 0) } else { m.write_volatile_to(addr, &mut a, 0) }
                 }
                 _ => {
                     let p0 = if variant == 3 { 4 } else { 9 };
